@@ -18,6 +18,7 @@ CONSTANTS
   LegacyNilLog = FALSE
   PubRest <- NoRest
   MutBatchPersistFirst = FALSE
+  MutDropLogEarly = FALSE
   MutBatchNoWait = FALSE
   MutPersistOutsideLock = FALSE
 INVARIANTS NoPanic OneUnsettled OneSenderPerPair OnlyOwnTopic BlockingReturn NoStuckCall
